@@ -94,11 +94,12 @@ MC_HEAP_KNOBS = [dict(module="HeapLife", name="heap_knob_" + k, expect="violate"
 
 
 def run_c20(ctx, C):
-    codec_common(ctx, C, [GEN_HEAP, GEN_EAP_UNKNOWN, gen_obj("msg", "C20")], [], mcs=[MC_HEAP] + MC_HEAP_KNOBS, traces=())
+    codec_common(ctx, C, [GEN_HEAP, GEN_EAP_UNKNOWN, gen_obj("msg", "C20"), GEN_SK_SEQ20], [], mcs=[MC_HEAP] + MC_HEAP_KNOBS, traces=())
 
 
-GEN_SK = dict(module="Gen_SK", name="sk", constants=dict(OnlySeq=False))
-GEN_SK_SEQ = dict(module="Gen_SK", name="sk_seq", constants=dict(OnlySeq=True), trace=False)
+GEN_SK = dict(module="Gen_SK", name="sk", constants=dict(OnlySeq='""'))
+GEN_SK_SEQ = dict(module="Gen_SK", name="sk_seq", constants=dict(OnlySeq='"C17"'), trace=False)
+GEN_SK_SEQ20 = dict(module="Gen_SK", name="sk_seq", constants=dict(OnlySeq='"C20"'), trace=False)
 MC_SK = dict(module="SKChannel", name="skchannel",
              constants=dict(Msgs='{"m1", "m2"}', MaxOps=lambda ctx: 5 if ctx.thorough else 4, ResetBeforeMac=True, ResetPerPrfBlock=True, MacFirst=True, PeerKeys=True),
              invariants=("AsFresh", "AcceptOnlySent", "RoundTrip", "MacBeforeDecrypt", "RetypeIsPlain", "NoReflection"), view="View",
@@ -207,16 +208,17 @@ MC_AKA_KNOB = dict(module="AkaSession", name="akasession_knob_MacOverWire", expe
                    invariants=("ReceiverAgrees", "Sensitive"), what="sanity: a receiver that re-serialises before computing the code rejects honest packets in another order")
 
 
-GEN_AKAHIST = dict(module="Gen_AkaHist", name="akahist", constants=dict(MaxOps=lambda ctx: 5 if ctx.thorough else 4), trace=False)
+GEN_AKAHIST = dict(module="Gen_AkaHist", name="akahist", constants=dict(MaxOps=lambda ctx: 5 if ctx.thorough else 4, FromWire=False), trace=False)
+GEN_AKAHIST_W = dict(module="Gen_AkaHist", name="akahist_wire", constants=dict(MaxOps=lambda ctx: 4 if ctx.thorough else 3, FromWire=True), trace=False)
 
 
 def run_c14(ctx, C):
-    codec_common(ctx, C, [GEN_EAP, GEN_AKAHIST, gen_obj("eap", "C14")], [DRV_EAP], mcs=[MC_OBJ, MC_OBJ_KNOB], traces=("Trace_Codec",))
+    codec_common(ctx, C, [GEN_EAP, GEN_AKAHIST, GEN_AKAHIST_W, gen_obj("eap", "C14")], [DRV_EAP], mcs=[MC_OBJ, MC_OBJ_KNOB], traces=("Trace_Codec",))
     C.stage_s3(ctx)
 
 
 def run_c15(ctx, C):
-    codec_common(ctx, C, [GEN_EAP, GEN_AKAHIST], [], mcs=[MC_AKA, MC_AKA2, MC_AKA_KNOB], traces=())
+    codec_common(ctx, C, [GEN_EAP, GEN_AKAHIST, GEN_AKAHIST_W], [], mcs=[MC_AKA, MC_AKA2, MC_AKA_KNOB], traces=())
 
 
 def run_c16(ctx, C):
